@@ -759,6 +759,14 @@ val run_helper_hdr : n -> n -> n -> (nat * n) -> kv list
 
 val run_helper_chk : n -> kv list
 
+val run_helper_phdr : bytes -> kv list
+
+val run_build_unchecked : member -> nat -> n -> kv list
+
+val fci_write_into : fci_cfg -> bytes -> nat wres * bytes
+
+val run_build_fci : fci_cfg -> (nat * n) list -> kv list
+
 type op =
 | OPad of n
 | ONtp of n
